@@ -119,6 +119,7 @@ class Ledger:
         ov['OutPoint::is_null'] = lambda it_, k, r, a: T(a[0]).fields[0].v.fields[0].v.t == 0
         ov['<OutPoint as From>::from'] = ov['<&OutPoint as Into>::into'] = ov['<OutPoint as Into>::into'] = lambda it_, k, r, a: deep_clone(T(a[0]))
         ov['OutPoint::new'] = lambda it_, k, r, a: Agg('OutPoint', [Cell(a[0]), Cell(a[1])])
+        ov['<Txid as Into>::into'] = ov['<Txid as From>::from'] = lambda it_, k, r, a: deep_clone(T(a[0]))
         ov['Amount::to_sat'] = lambda it_, k, r, a: T(a[0]).fields[0].v
         ov['ScriptBuf::to_bytes'] = ov['Script::to_bytes'] = lambda it_, k, r, a: VecV([Cell(StrV(T(a[0]).fields[0].v.s))])
         ov['Script::from_bytes'] = lambda it_, k, r, a: script(as_slice(a[0]).cells()[0].v.s)
